@@ -6,6 +6,8 @@ open RedunModel RedunModel.ValueStore
    (init T|F)                                 fresh backend with / without a value store           -> ok
    (name b<payload> b<fname>)                 one point of the FileCache naming function `fn`      -> ok
    (record <val> i<min> i<max>)               <val> ::= (plain b<pickle>) | (fc b<payload>)        -> (ok <key>) | !RedunDatabaseError
+   (recordwatch <val> i<min> i<max>)          record while another backend reads the value inside the store write window
+                                              -> <record reply> <read reply | - (no existing object)>
    (getaway <key>)                            get while the store directory is moved away (state unchanged)  -> as get
    (get <key>)                                <key> ::= (T|F b<data>)                              -> absent | <val> | !AssertionError
    (dropstore <key>) (dropfc b<fname>) (attach)                                                     -> ok
@@ -69,6 +71,27 @@ def stepLine (st : DSt) (line : String) : DSt × String :=
           | .ok k => "(ok " ++ rKey k ++ ")"
           | .error .tooLarge => "!RedunDatabaseError"
           | .error .noStore => "!AssertionError")
+    | _, _, _ => (st, "bad-value")
+  | some [.list [.atom "recordwatch", v, mn, mx]] =>
+    match pVal v, pN mn, pN mx with
+    | some v, some mn, some mx =>
+      let unnamed := match v with
+        | .fcache p => (lookup p st.names).isNone
+        | _ => false
+      if unnamed then (st, "bad-value")
+      else
+        let r := recordWatch (fnOf st.names) v ⟨mn, mx⟩ st.s
+        let rec1 := match r.1.2 with
+          | .ok k => "(ok " ++ rKey k ++ ")"
+          | .error .tooLarge => "!RedunDatabaseError"
+          | .error .noStore => "!AssertionError"
+        let rd := match r.2 with
+          | none => "-"
+          | some (.ok none) => "absent"
+          | some (.ok (some v)) => rVal v
+          | some (.error .noStore) => "!AssertionError"
+          | some (.error .tooLarge) => "!RedunDatabaseError"
+        ({ st with s := r.1.1 }, rec1 ++ " " ++ rd)
     | _, _, _ => (st, "bad-value")
   | some [.list [.atom "get", k]] =>
     match pKey k with
